@@ -40,7 +40,7 @@ def handleReadFix (args : List String) : String :=
     match read_swc_fix (normOf xs ys zs) (ids.length * ids.length + 2) ids pids tys rs fix (Proto.argNat args "sort" = some 1)
         (Proto.argNat args "reset" = some 1) () with
     | none => "E"
-    | some r => s!"{Proto.showInts r.1} / {Proto.showInts r.2.1} / {Proto.showInts r.2.2.1} / {Proto.showInts r.2.2.2.1} / {Proto.showInts r.2.2.2.2.1}"
+    | some r => s!"{Proto.showInts r.1} / {Proto.showInts r.2.1} / {Proto.showInts r.2.2.1} / {Proto.showInts r.2.2.2.1} / {if r.2.2.2.2.1.isEmpty then "_" else Proto.showInts r.2.2.2.2.1}"
   | _, _, _, _, _, _, _, _ => "bad-args"
 
 end AlgoRun
